@@ -28,6 +28,9 @@ FOURTH ROUND NOTE: three attempts have already been made by other people, mostly
     6: """
 SIXTH ROUND NOTE: several attempts have been made already, and all the obvious mechanisms are taken. Assume the verification suite under evaluation explores SMALL inputs exhaustively (short lists and strings, shallow nesting, a handful of statements, the usual special numbers) and only sparsely samples larger sizes. Make a change whose breakage shows ONLY on inputs such exploration is unlikely to contain, for example: a size / length / depth / count threshold that is not a round number (more than 37 elements, strings longer than 300 characters, nesting deeper than 6, more than 12 statements or 9 arguments, a record with more than 20 keys); a particular combination of three language features; a particular non-special number (more than 17 significant digits, a value between 2^31 and 2^32, a specific decimal exponent); or a specific Unicode class (combining marks, right-to-left text, astral planes, characters whose upper/lower case has a different length). Such a threshold must look natural in the code (a buffer size, a fast path for small inputs, a chunked loop, a cache with a capacity). State the trigger exactly in notes.md. Read the code the property is anchored in first and list at least four candidate places in notes.md before choosing.
 """,
+    7: """
+SEVENTH ROUND NOTE: many attempts have been made already (direct ones, caches, thresholds on sizes and depths, Unicode classes, read-buffer boundaries). Assume the verification suite explores small inputs exhaustively, a ladder of larger sizes, every nesting depth up to a few dozen, and short sequences of statements. Find something it can still miss. Directions that are still open: a breakage that needs a SEQUENCE of at least four dependent steps (statements, calls or evaluations) before it shows; a breakage that depends on HOW a value was created rather than on the value (computed vs written as a literal, read from inputs vs built in the program, captured vs passed, spread vs indexed); an interaction between TWO entry points or modes (library vs CLI vs the WASM bindings source, file vs inline vs -e, --format then evaluate); a counter, index or accumulator that wraps or saturates; state that survives a FAILED operation; a fast path chosen by an arithmetic coincidence (length divisible by a stride, a value equal to its own rounding, two keys with equal hash-relevant prefixes). The change must still look like something a maintainer would commit. State the trigger exactly in notes.md. Read the code the property is anchored in first and list at least four candidate places in notes.md before choosing.
+""",
 }
 text = f"""You are helping to evaluate how well a verification suite detects regressions in the open-source project paul-russo/blots-lang (Blots: a small expression-oriented language written in Rust: pest grammar, tree-walking evaluator, formatter, CLI, WASM bindings).
 
